@@ -268,15 +268,19 @@ Fixpoint fresh_from (next : Z) (olds : list valobj) : list valobj :=
   match olds with [] => [] | o :: r => mkV next (v_rank o) :: fresh_from (next + 1) r end.
 
 (* allow = Cloner(allow_outer_scope_values=True): an input that is not in the value map is passed through
-   unchanged instead of raising *)
-Fixpoint clone_inputs (allow : bool) (m : vmap) (ins : list (option valobj)) : option (list (option valobj)) :=
+   unchanged instead of raising — unless it is an output of a node of the graphs being cloned (`own`): such a
+   use-before-definition raises, either at once (Cloner._own_outputs) or in the post-check at the end of the
+   graph that defines it (Cloner._passed_through); the clone never keeps a reference into the original graph. *)
+Fixpoint clone_inputs (allow : bool) (own : list valobj) (m : vmap) (ins : list (option valobj))
+  : option (list (option valobj)) :=
   match ins with
   | [] => Some []
-  | None :: r => option_map (cons None) (clone_inputs allow m r)
+  | None :: r => option_map (cons None) (clone_inputs allow own m r)
   | Some v :: r => match vm_get m v with
-                   | None => if allow then option_map (cons (Some v)) (clone_inputs allow m r)
-                             else None       (* "outer-scope value": ValueError wrapped in RuntimeError *)
-                   | Some w => option_map (cons (Some w)) (clone_inputs allow m r)
+                   | None => if allow && negb (existsb (v_eqb v) own)
+                             then option_map (cons (Some v)) (clone_inputs allow own m r)
+                             else None       (* ValueError wrapped in RuntimeError *)
+                   | Some w => option_map (cons (Some w)) (clone_inputs allow own m r)
                    end
   end.
 
@@ -296,7 +300,7 @@ Fixpoint flush (d : nat) (pend : pending) (m : vmap) : pending * vmap :=
   | (d', b) :: r => if (d <=? d')%nat then flush d r (b ++ m) else (pend, m)
   end.
 
-Fixpoint clone_nodes (h : state) (allow : bool) (pend : pending) (m : vmap) (next : Z) (nodes : list (Z * node))
+Fixpoint clone_nodes (h : state) (allow : bool) (own : list valobj) (pend : pending) (m : vmap) (next : Z) (nodes : list (Z * node))
   : option (list (Z * node) * list (Z * str) * Z) :=
   match nodes with
   | [] => Some ([], [], next)
@@ -304,14 +308,14 @@ Fixpoint clone_nodes (h : state) (allow : bool) (pend : pending) (m : vmap) (nex
       let d := depth h (node_scope h n) in
       let '(pend1, m1) := flush d pend m in
       (* Function.clone has no allow_outer_scope_values: the flag concerns the main graph and its bodies *)
-      match clone_inputs (allow && (root_of h (node_scope h n) =? 0)) m1 (n_in nd) with
+      match clone_inputs (allow && (root_of h (node_scope h n) =? 0)) own m1 (n_in nd) with
       | None => None
       | Some ins' =>
           let outs' := fresh_from next (n_out nd) in
-          let own := rev (combine (n_out nd) outs') in
-          let nd' := mkN ins' outs' (remap_dcs (own ++ m1) (n_dc nd)) in
+          let bind := rev (combine (n_out nd) outs') in
+          let nd' := mkN ins' outs' (remap_dcs (bind ++ m1) (n_dc nd)) in
           let names := map (fun p => (v_id (snd p), name_of h (fst p))) (combine (n_out nd) outs') in
-          match clone_nodes h allow ((d, own) :: pend1) m1 (next + Z.of_nat (length (n_out nd))) r with
+          match clone_nodes h allow own ((d, bind) :: pend1) m1 (next + Z.of_nat (length (n_out nd))) r with
           | None => None
           | Some (r', names', next') => Some ((n, nd') :: r', names ++ names', next')
           end
@@ -325,7 +329,8 @@ Definition clone (h : state) (deep allow : bool) : state * res unit :=
   let gin' := fresh_from (s_nextv h) (s_gin h) in
   let m0 := rev (combine (s_gin h) gin') in
   let names0 := map (fun p => (v_id (snd p), name_of h (fst p))) (combine (s_gin h) gin') in
-  match clone_nodes h allow [] m0 (s_nextv h + Z.of_nat (length (s_gin h))) (s_nodes h) with
+  let own := flat_map (fun p => if root_of h (node_scope h (fst p)) =? 0 then n_out (snd p) else []) (s_nodes h) in
+  match clone_nodes h allow own [] m0 (s_nextv h + Z.of_nat (length (s_gin h))) (s_nodes h) with
   | None => (h, Raise RuntimeError)
   | Some (nodes', names', next') =>
       (mkSt (names0 ++ names' ++ s_names h) nodes' gin' (s_cfgs h) next' (s_nextc h) (s_ir h) (s_sc h), Ok tt)
